@@ -37,7 +37,7 @@ BASE_MIX = {
     "C15": {"call": 5, "inverse": 4, "backward": 4, "construct": 2, "convert": 0.5,
             "restart": 0.9, "drop": 0.3, "forget": 0.3, "mutate_output": 0.8, "load": 0.8,
             "set_default_dtype": 0.4, "func": 1.2, "roundtrip": 1.5},
-    "C16": {"call": 6, "inverse": 3, "backward": 1.0, "construct": 2, "convert": 4,
+    "C16": {"call": 6, "inverse": 3, "backward": 2.5, "construct": 2, "convert": 4,
             "restart": 1.5, "drop": 0.2, "forget": 0.1, "mutate_output": 0.2, "load": 0.0,
             "set_default_dtype": 2.0, "func": 0.0, "roundtrip": 1.0},
     "C18": {"call": 0.6, "inverse": 0.0, "backward": 0.0, "construct": 3, "convert": 0.0,
